@@ -7,7 +7,7 @@ Obs == JsonDeserialize(IOEnv.OBS_FILE)      \* sequence of [cmd, orig, redact, h
 (* two-level fan-out (block, then observation) so that TLC's workers judge in parallel *)
 VARIABLES i, blk
 NB == 64
-JInit == i = 0 /\ blk = 0 /\ el = [slot |-> "body", s |-> <<>>]
+JInit == i = 0 /\ blk = 0 /\ el = [slot |-> "body", s |-> <<>>, m |-> "-"]
 JNext == \/ /\ blk = 0 /\ blk' \in 1..NB /\ i' = 0 /\ UNCHANGED el
          \/ /\ blk > 0 /\ i = 0 /\ i' \in {j \in 1..Len(Obs) : (j % NB) + 1 = blk} /\ UNCHANGED <<blk, el>>
 JSpec == JInit /\ [][JNext]_<<i, blk, el>>
